@@ -16,7 +16,7 @@ func prop(id string, rules []string, explanation, notDecided string, extra ...st
 // frozen minimum obligation counts per rule (vacuity guard): measured on the tree the rules were
 // confirmed against by hand, with slack for harmless restructuring.
 var frozenMin = map[string]int{
-	"P-API-FORMS": 300, "P-ATOMIC-WRITE": 9, "P-CLONE": 2, "P-COMMENT": 4, "P-CTOR": 9, "P-DICT": 7, "P-ERR-PROP": 55,
+	"P-API-FORMS": 300, "P-ATOMIC-WRITE": 9, "P-CLONE": 2, "P-COMMENT": 4, "P-CTOR": 9, "P-DICT": 7, "P-ERR-PROP": 40,
 	"P-FILERENDER-ORDER": 4, "P-FORMAT-GATE": 10, "P-FRAGMENT": 7, "P-GROUPRENDER": 11, "P-IMPORTBLOCK": 5, "P-ISNULL": 13,
 	"P-LITCTOR": 10, "P-LOCALDOT": 2, "P-MAPRANGE": 5, "P-NILGUARD": 10, "P-REGISTER": 10, "P-RENDERITEMS": 5, "P-STMTRENDER": 2,
 	"P-TAG": 6, "P-TOKEN": 5, "P-VALIDALIAS": 1, "T-CONSTRUCTS": 280, "T-GENNAMES": 4, "T-KEYWORDS": 70, "T-LITFMT": 36,
